@@ -206,6 +206,16 @@ def raster(draw, accessor=False):
         nd = draw(st.sampled_from([-9999.9, 1e20, -3.4e38] if dt == "float64" else [2147483647, -2147483647, 16777217]))
     if nd == 0:
         ok = [o and v != 0 for o, v in zip(ok, vals)]
+    if dt in ("float64", "int32") and draw(st.integers(0, 2)) == 0:
+        # valid pixels right next to the nodata value (they are data: only pixels EQUAL to nodata are missing)
+        k = draw(st.integers(1, 4))
+        for q in draw(st.lists(st.integers(0, n - 1), min_size=k, max_size=k, unique=True)):
+            if dt == "float64":
+                vals[q] = float(np.nextafter(nd, 0)) if draw(st.booleans()) else nd + draw(st.sampled_from([1e-4, -1e-4, 1e-9 * max(1.0, abs(nd))]))
+            else:
+                vals[q] = int(max(-2147483647, min(2147483646, int(nd) + draw(st.sampled_from([1, -1, 40, -40])))))
+            if vals[q] != nd:
+                ok[q] = True
     case = {"shape": [T, Y, X], "pixels": vals, "ok": ok, "zones": zones, "nz": max(nz, 1), "znodata": znd, "nodata": nd, "dtype": dt,
             "out_dtype": draw(st.sampled_from(["float32", "float64"])), "kind": kind, "share": share, "zpat": zpat}
     if znd == 255:
